@@ -992,6 +992,63 @@ def case_affected(kind):
     return t
 
 
+_CASE_SPECIAL = {}
+
+
+def _case_special(kind):
+    """non-ASCII code points whose upper()/lower() is not a single non-ASCII character:
+       {cp: mapped string} for those whose image contains an ASCII character, and {length: [cps]} for the other
+       multi-character images (computed from CPython)."""
+    t = _CASE_SPECIAL.get(kind)
+    if t is None:
+        f = (lambda ch: ch.upper()) if kind == 'upper' else (lambda ch: ch.lower())
+        ascii_img = {}
+        bylen = {}
+        for lo, hi in case_affected(kind):
+            for cp in range(lo, hi + 1):
+                u = f(chr(cp))
+                if any(ord(x) < 128 for x in u):
+                    ascii_img[cp] = u
+                elif len(u) != 1:
+                    bylen.setdefault(len(u), []).append(cp)
+        t = (ascii_img, bylen)
+        _CASE_SPECIAL[kind] = t
+    return t
+
+
+def _nonascii_casemap(c, kind):
+    """image of a symbolic non-ASCII cased character under upper()/lower(): the few characters whose image contains ASCII
+    (sharp s, dotless i, long s, ligatures, Kelvin sign, ...) are forked individually and mapped by CPython itself;
+    every other image is one or more non-ASCII characters, represented by fresh symbolic non-ASCII code points
+    (an over-approximation: nothing downstream can depend on which non-ASCII character it is except by comparing,
+    and witnesses are replayed on the real code)."""
+    e = E.cur()
+    key = ('case', kind, c.get_id())
+    hit = e.uf_cache.get(key)
+    if hit is not None:
+        return list(hit[1])
+    ascii_img, bylen = _case_special(kind)
+    res = None
+    for cp, img in ascii_img.items():
+        if SymBool(c == cp):
+            res = [ord(x) for x in img]
+            break
+    if res is None:
+        n = 1
+        for ln, cps in bylen.items():
+            if SymBool(z3.Or(*[c == k for k in cps])):
+                n = ln
+                break
+        res = []
+        for i in range(n):
+            r = z3.Int('case_%s_%d_%d' % (kind, e.nfresh, i))
+            e.nfresh += 1
+            e.add(r >= 128, r <= 0x10FFFF)
+            res.append(r)
+    e.uf_cache[key] = (c, res)
+    return list(res)
+
+
 class SymStr(object):
     """A str of concrete length; each element of cps is an int code point or a z3 Int term."""
     __slots__ = ('cps',)
@@ -1201,8 +1258,9 @@ class SymStr(object):
                 continue
             if SymBool(c >= 128):
                 if SymBool(in_ranges(c, case_affected(kind))):
-                    raise Unmodelled('str.%s() of a non-ASCII cased character' % kind)
-                out.append(c)
+                    out.extend(_nonascii_casemap(c, kind))
+                else:
+                    out.append(c)
                 continue
             if kind == 'upper':
                 out.append(z3.If(z3.And(c >= 97, c <= 122), c - 32, c))
